@@ -62,6 +62,20 @@ class Probe:
         else:
             self.t.outcome("rejected-" + route)
 
+    def whatever_is_built_must_be_valid(self, route, what, constraint, fn, arg, case):
+        """inputs whose acceptance is the library's choice: a refusal is fine, an instance must satisfy its class"""
+        self.t.count("evaluations")
+        self.t.count("violating")
+        r = attempt(fn, arg)
+        if r[0] == "exc":
+            self.t.outcome("rejected-" + route)
+            return
+        probs = S.validate(r[1])
+        if probs:
+            self.t.fail(f"C04|{self.cls}|{constraint}|{route}|instance-violates-its-class", dict(case, route=route), f"{what}: {probs[0]}")
+        else:
+            self.t.outcome("accepted-" + route)
+
     def must_accept(self, route, what, constraint, fn, arg, case, expect_warning=None):
         self.t.count("evaluations")
         self.t.count("boundary")
@@ -292,6 +306,10 @@ def class_probes(t, cls):
                 for m in members:
                     if cm[m].kind == "elem" and cm[m].typ in ("String", "NagString"):
                         P.must_reject("ctor", f"only {m}, as the empty string", f"{kind}:{gname}", via_ctor, with_kw(none, m, ""), case)
+                        # blank data: kept as a value or taken as none - but then the group must notice
+                        for blank in (" ", "&nbsp;", "\t", " &nbsp; "):
+                            P.whatever_is_built_must_be_valid("ctor", f"only {m}, as {blank!r}", f"{kind}:{gname}", via_ctor, with_kw(none, m, blank), case)
+                            P.whatever_is_built_must_be_valid("tree", f"only {m}, as {blank!r}", f"{kind}:{gname}", via_tree, wire.doc(with_kw(none, m, "x"), {(m,): blank}), case)
             else:
                 if not any(cm[m].required for m in members):
                     P.must_accept("ctor", "no member present", f"{kind}:{gname}", via_ctor, none, case)
@@ -404,7 +422,7 @@ def run(ctx):
     cov = {
         "evaluations": tally.counts.get("evaluations", 0),
         "distinct_nontrivial": tally.counts.get("violating", 0),
-        "rule": "every class x every declared/inherited constraint: required child omitted (MIN and MAXS); each pair of a group present, none of an exactly-one group (also: only an empty string), "
+        "rule": "every class x every declared/inherited constraint: required child omitted (MIN and MAXS); each pair of a group present, none of an exactly-one group (also: only an empty or blank string), "
         "each member alone; enumeration foreign tokens (near misses and 8 tokens of other enumerations, accepted there first) and first/last token; string at limit / limit+1 (also counted in escaped ampersands; NagString warns and keeps); "
         "integer +-(10^n-1) / 10^n,-10^n,10^(n+1); non-value text per typed element; every adjacent pair of the MAXS tree swapped (unless both repeated); every "
         "non-repeatable child duplicated (adjacent and one sibling later); foreign aggregate / int / str as list member; the class-specific rules of 16 classes (one-or-more members, one account-info per service, request / response not mixed, credentials, contribution sources, conditional requirements); undeclared keyword - through the keyword "
